@@ -409,6 +409,26 @@ def gen(rng, tier):
         ops.append(["fill_blackbox", inst, rng.choice(CHILD_FOR_TYPE[tname])])
         for op in ops:
             model.apply(copy.deepcopy(op))
+    if start is None and not ops and rng.random() < 0.04:
+        # parent nets called like the nodes INSIDE the implementation (w, y, t, q are names anybody uses): the loads of
+        # the instance's output pins carry the names of the model's own nodes when the instance is filled
+        tname = rng.choice(("bbA", "bbB", "bbC", "bbE", "bbE", "bbF"))
+        cname = rng.choice(CHILD_FOR_TYPE[tname])
+        ins, outs = BBTYPES[tname]
+        inner = sorted(n for n in CHILDREN[cname]["nodes"] if "." not in n)
+        inst = rng.choice(INSTS[:5])
+        ops.append(["add", "a", "input", None, None, False, False])
+        conns = {p: "a" for p in ins if rng.random() < 0.9}
+        for p in outs:
+            if inner and rng.random() < 0.9:
+                nm = rng.choice(inner)
+                if nm != "a" and nm not in [o[1] for o in ops]:
+                    ops.append(["add", nm, "buf", None, None, rng.random() < 0.5, False])
+                    conns[p] = nm
+        ops.append(["add_blackbox", tname, inst, conns])
+        ops.append(["fill_blackbox", inst, cname])
+        for op in ops:
+            model.apply(copy.deepcopy(op))
     for _ in range(rng.randint(30, 90) if (tier == "thorough" and rng.random() < 0.3) else rng.randint(5, 40)):
         if rng.random() < 0.02:
             # "uid storm": many uid adds of one name, to walk the suffix chain (_0 .. _10, _70, ...)
@@ -545,6 +565,8 @@ def run(case, ctx):
             ctx.violate("C07.blackbox_type", f"BlackBox({k!r}, inputs={v[0] or 'default'}, outputs={v[1] or 'default'}) raised "
                         f"{type(e).__name__}: {e}", {"rule": "blackbox_type", "op": "BlackBox"})
     exempt = set()       # instances for which the caller removed a pin node itself
+    removed_by_caller = set()    # dotted node names the caller removed (with dotted instance names, `u.k.z` is the pin k.z
+    #                              of instance u AND the pin z of a later instance u.k: the removal concerns both)
     snap = ref.snapshot(c)
     pre = ref.wiring_violations(snap)
     if pre:
@@ -562,6 +584,7 @@ def run(case, ctx):
         if op[0] == "remove":
             for n in _aslist(op[1]):
                 if "." in n:
+                    removed_by_caller.add(n)
                     # every recorded instance that has a pin of this name loses it (names with dots are ambiguous)
                     for i in bbs_before:
                         if n.startswith(i + "."):
@@ -583,7 +606,7 @@ def run(case, ctx):
             if rule.startswith("I6"):
                 # the instance the pin belongs to (instance and pin names may contain dots themselves)
                 inst = msg.rsplit("of instance ", 1)[-1]
-                if inst in exempt:
+                if inst in exempt or n in removed_by_caller:
                     continue
                 ctx.violate(f"C07.{rule[:2]}", f"step {step} {op}: after {outcome}: {n}: {msg}",
                             dict(sig, rule=rule), soft=True)
